@@ -75,10 +75,20 @@ def polygons(rng):
     return 'trench-like', p, d
 
 
-def run_one(poly, d, turns):
+def run_one(poly, d, turns, abandoned=0):
     from femto.trench import Trench
     from femto.helpers import normalize_polygon
     t = Trench(normalize_polygon(poly), delta_floor=d, safe_inner_turns=turns)
+    if abandoned:
+        # an earlier walk over the tool-path that was given up after `abandoned` polylines (a peek, a consumer that failed)
+        try:
+            with pgm.quiet():
+                g0 = t.toolpath()
+                for _ in range(abandoned):
+                    next(g0)
+            del g0
+        except Exception:
+            pass
     ids = {}
     polys = []
 
@@ -91,6 +101,7 @@ def run_one(poly, d, turns):
     pid(t.block)
     inset_rec, hatch_rec, yields, hatch_lines = [], [], [], []
     orig_bp = Trench.buffer_polygon
+    orig_bp_attr = Trench.__dict__['buffer_polygon']      # the staticmethod object itself, for an exact restore
     orig_zz = Trench.zigzag
     buffered = {}
 
@@ -125,15 +136,18 @@ def run_one(poly, d, turns):
                 if len(inset_rec) > nb:
                     yields.append((True, inset_rec[-1][0]))
                     nb = len(inset_rec)
-                else:
+                elif len(hatch_rec) > nh:
                     yields.append((False, hatch_rec[-1][0]))
+                    nh = len(hatch_rec)
+                else:
+                    yields.append((False, 10 ** 6))      # a polyline that came from neither an inset nor a hatching call
                 if y.ndim == 2 and y.shape[1] >= 2:
                     lines.append(geometry.LineString(y.T))
     except Exception as e:
         raised = type(e).__name__
         n = -1
     finally:
-        Trench.buffer_polygon = orig_bp
+        Trench.buffer_polygon = orig_bp_attr
         Trench.zigzag = orig_zz
     empties = [i for i, g in enumerate(polys) if g.is_empty]
     xb, yb = t.border
@@ -192,8 +206,9 @@ def run(rep: common.Report, tier: str, seed: int):
         turns = 3 if name == 'U-directed' else (rng.randint(6, 10) if name == 'dumbbell' else rng.randint(2, 8))
         if poly.area / (d * d) > 4e5:      # keep the number of hatch lines / insets manageable
             d = math.sqrt(poly.area / 4e5)
-        r = run_one(poly, d, turns)
-        r_descr = {'shape': name, 'delta': d, 'turns': turns, 'wkt': poly.wkt if len(poly.wkt) < 1500 else poly.wkt[:1500] + '...',
+        abandoned = rng.choice([0, 0, 0, 1, 3])
+        r = run_one(poly, d, turns, abandoned)
+        r_descr = {'shape': name, 'delta': d, 'turns': turns, 'earlier_walk_abandoned_after': abandoned, 'wkt': poly.wkt if len(poly.wkt) < 1500 else poly.wkt[:1500] + '...',
                    'num_insets': r['n'], 'raised': r['raised'], 'yields': len(r['yields']), 'outside_length': r['margin_in'], 'outside_in': r['where'],
                    'uncovered_fraction': r['margin_cov']}
         cases.append(r_descr)
